@@ -21,8 +21,8 @@
    dict whose first key is above the offset, IndexError / assert raised by
    Chunk.__getitem__ and the Chunk constructors on out-of-range slices, the `assert`s of
    set_byte / set_slice / slice.  Values are never the receiver itself.               *)
-From Coq Require Import List Arith Bool.
-From HV Require Import Spec.ByteVecSpec.
+From Coq Require Import List Arith Bool ZArith.
+From HV Require Import Spec.ByteVecSpec Gen.GenByteVecSugar.
 Import ListNotations.
 
 Section Model.
@@ -260,14 +260,27 @@ Definition set_slice (v : bvec) (start stop : nat) (val : chunk) : option bvec :
 Definition set_word (v : bvec) (off : nat) (val : chunk) : option bvec :=
   set_slice v off (off + 32) val.
 
-(* ByteVec.__setitem__ with a slice key:
-     start = key.start or 0 ; stop = key.stop or self.length
-   Python's `or` takes the default for None AND for 0 *)
-Definition py_or (x : option nat) (d : nat) : nat :=
-  match x with Some 0 => d | Some n => n | None => d end.
+(* ByteVec.__setitem__ / __getitem__ with a slice key (step 1):
+     start = <bound of key.start> ; stop = <bound of key.stop, default self.length>
+     return self.set_slice(start, stop, value)   /   return self.slice(start, stop)
+   The two bound expressions are regenerated from the Python (Gen/GenByteVecSugar.v:
+   `x or d` takes the default for None AND for 0, `x if x is not None else d` for None only);
+   None = the bound is omitted in the key *)
+Definition oz (x : option nat) : option Z := option_map Z.of_nat x.
+
+Definition setitem_bounds (v : bvec) (start stop : option nat) : nat * nat :=
+  (Z.to_nat (setitem_start (oz start) (Z.of_nat (blen v))),
+   Z.to_nat (setitem_stop (oz stop) (Z.of_nat (blen v)))).
 
 Definition setitem_slice (v : bvec) (start stop : option nat) (val : chunk) : option bvec :=
-  set_slice v (py_or start 0) (py_or stop (blen v)) val.
+  set_slice v (fst (setitem_bounds v start stop)) (snd (setitem_bounds v start stop)) val.
+
+Definition getitem_bounds (v : bvec) (start stop : option nat) : nat * nat :=
+  (Z.to_nat (getitem_start (oz start) (Z.of_nat (blen v))),
+   Z.to_nat (getitem_stop (oz stop) (Z.of_nat (blen v)))).
+
+Definition getitem_slice (v : bvec) (start stop : option nat) : bvec :=
+  bslice v (fst (getitem_bounds v start stop)) (snd (getitem_bounds v start stop)).
 
 (* a ConcreteChunk (unwrap gives python bytes) *)
 Definition leaf_conc (c : chunk) : bool :=
@@ -373,3 +386,5 @@ Arguments abs_op {B}.
 Arguments op_ok {B}.
 Arguments apply_op {B}.
 Arguments run_ops {B}.
+Arguments setitem_bounds {B}.
+Arguments getitem_bounds {B}.
